@@ -1275,3 +1275,140 @@ def ItemsWellFormed (items : List Item) : Prop :=
 
 
 end Tw.Datafile
+
+namespace Tw.Datafile
+
+/-! ### the range `item_type_indices` returns on a written file -/
+
+def countLt (items : List Item) (t : Nat) : Nat := (items.filter (fun it => it.typeId < t)).length
+def countEq (items : List Item) (t : Nat) : Nat := (items.filter (fun it => it.typeId = t)).length
+
+theorem itemTypeIndicesIn_groupTypes :
+    ∀ (items : List Item) (idx t : Nat),
+      items.Pairwise (fun a b => a.typeId ≤ b.typeId) → (∀ it ∈ items, it.typeId < 65536) →
+      0 < countEq items t →
+      itemTypeIndicesIn (groupTypes items idx) t
+        = .ok (idx + countLt items t, idx + countLt items t + countEq items t) := by
+  intro items
+  induction items with
+  | nil => intro idx t _ _ h; simp [countEq] at h
+  | cons it rest ih =>
+    intro idx t hsort h16 hpos
+    have hsort' := (List.pairwise_cons.1 hsort).2
+    have hhead := (List.pairwise_cons.1 hsort).1
+    have h16' : ∀ it' ∈ rest, it'.typeId < 65536 := fun it' h => h16 it' (List.mem_cons_of_mem _ h)
+    have hit := h16 it (List.mem_cons_self ..)
+    -- all items of `rest` are ≥ it.typeId
+    have hmod : ∀ v : Nat, v < 65536 → (((v : Nat) : Int) % 65536).toNat = v := by intro v hv; omega
+    by_cases hty : it.typeId = t
+    · -- the head group is the group of `t`
+      subst hty
+      have hlt : countLt (it :: rest) it.typeId = 0 := by
+        simp only [countLt, List.filter_cons, Nat.lt_irrefl, decide_false]
+        have : rest.filter (fun it' => decide (it'.typeId < it.typeId)) = [] := by
+          rw [List.filter_eq_nil_iff]; intro a ha; have := hhead a ha; simp; omega
+        simp [this]
+      have hce : countEq (it :: rest) it.typeId = countEq rest it.typeId + 1 := by
+        simp [countEq, List.filter_cons]
+      have hlt' : countLt rest it.typeId = 0 := by
+        simp only [countLt]
+        have : rest.filter (fun it' => decide (it'.typeId < it.typeId)) = [] := by
+          rw [List.filter_eq_nil_iff]; intro a ha; have := hhead a ha; simp; omega
+        simp [this]
+      rw [hlt, hce]
+      simp only [groupTypes]
+      cases hG : groupTypes rest (idx + 1) with
+      | nil =>
+        have hrest : rest = [] := by
+          cases rest with
+          | nil => rfl
+          | cons r0 rest' =>
+            obtain ⟨g, gs, hg, _⟩ := groupTypes_head r0 rest' (idx + 1)
+            rw [hg] at hG; cases hG
+        subst hrest
+        simp only [itemTypeIndicesIn, hmod _ hit, if_true, countEq, List.filter_nil, List.length_nil]
+        rw [if_neg (by omega), if_neg (by omega)]
+        congr 2 <;> omega
+      | cons g gs =>
+        obtain ⟨r0, rest', hr⟩ : ∃ r0 rest', rest = r0 :: rest' := by
+          cases rest with
+          | nil => simp [groupTypes] at hG
+          | cons r0 rest' => exact ⟨r0, rest', rfl⟩
+        obtain ⟨g', gs', hg', hgt, hgs⟩ := groupTypes_head r0 rest' (idx + 1)
+        rw [← hr, hG] at hg'
+        cases hg'
+        by_cases hsame : g.typeId = (it.typeId : Int)
+        · simp only []
+          rw [if_pos hsame]
+          -- the head group of `rest` is the group of `t` there
+          have hr0 : r0.typeId = it.typeId := by omega
+          have hpos' : 0 < countEq rest it.typeId := by
+            rw [hr]; simp [countEq, List.filter_cons, hr0]
+          have := ih (idx + 1) it.typeId hsort' h16' hpos'
+          rw [hG, hlt'] at this
+          simp only [itemTypeIndicesIn, hsame, hmod _ hit, if_true] at this ⊢
+          split at this
+          · cases this
+          · split at this
+            · cases this
+            · rename_i h1 h2
+              simp only [Outcome.ok.injEq, Prod.mk.injEq] at this
+              rw [if_neg (by omega), if_neg (by omega)]
+              congr 2 <;> omega
+        · simp only []
+          rw [if_neg hsame]
+          have hr0 : r0.typeId ≠ it.typeId := by
+            intro h; apply hsame; rw [hgt, h]
+          have hzero : countEq rest it.typeId = 0 := by
+            simp only [countEq]
+            have : rest.filter (fun it' => decide (it'.typeId = it.typeId)) = [] := by
+              rw [List.filter_eq_nil_iff]
+              intro a ha
+              rw [hr] at ha hsort'
+              have h1 := hhead r0 (by rw [hr]; exact List.mem_cons_self ..)
+              cases ha with
+              | head => simp; omega
+              | tail _ hm => have := (List.pairwise_cons.1 hsort').1 a hm; simp; omega
+            simp [this]
+          rw [hzero]
+          simp only [itemTypeIndicesIn, hmod _ hit, if_true]
+          rw [if_neg (by omega), if_neg (by omega)]
+          congr 2 <;> omega
+    · -- `t` occurs only in `rest`
+      have hpos' : 0 < countEq rest t := by
+        simpa [countEq, List.filter_cons, hty] using hpos
+      have hce : countEq (it :: rest) t = countEq rest t := by
+        simp [countEq, List.filter_cons, hty]
+      -- some item of type t is in rest, so it.typeId < t
+      have hlt_t : it.typeId < t := by
+        have : ∃ a ∈ rest, a.typeId = t := by
+          simp only [countEq] at hpos'
+          obtain ⟨a, ha⟩ := List.exists_mem_of_length_pos hpos'
+          have := List.mem_filter.1 ha
+          exact ⟨a, this.1, by simpa using this.2⟩
+        obtain ⟨a, ha, hat⟩ := this
+        have := hhead a ha
+        omega
+      have hcl : countLt (it :: rest) t = countLt rest t + 1 := by
+        simp [countLt, List.filter_cons, hlt_t]
+      have hih := ih (idx + 1) t hsort' h16' hpos'
+      rw [hce, hcl]
+      have hskip : ((it.typeId : Int) % 65536).toNat ≠ t := by rw [hmod _ hit]; exact hty
+      simp only [groupTypes]
+      cases hG : groupTypes rest (idx + 1) with
+      | nil => rw [hG] at hih; simp [itemTypeIndicesIn] at hih; omega
+      | cons g gs =>
+        rw [hG] at hih
+        by_cases hsame : g.typeId = (it.typeId : Int)
+        · simp only []
+          rw [if_pos hsame]
+          have hskipg : (g.typeId % 65536).toNat ≠ t := by rw [hsame]; exact hskip
+          simp only [itemTypeIndicesIn, if_neg hskipg] at hih ⊢
+          rw [hih]; congr 2 <;> omega
+        · simp only []
+          rw [if_neg hsame]
+          simp only [itemTypeIndicesIn, if_neg hskip]
+          simp only [itemTypeIndicesIn] at hih
+          rw [hih]; congr 2 <;> omega
+
+end Tw.Datafile
